@@ -155,6 +155,48 @@ pub fn make_frame(reserved: u8, payload: &[u8]) -> Vec<u8> {
     v
 }
 
+/// Inverse of 24 forward CRC steps on a zero-extended value: returns v with
+/// (v * x^24 mod P) == t. Used only to *craft* frames with a chosen checksum;
+/// every crafted frame is re-validated with the forward reference CRC.
+fn crc24q_unshift24(t: u32) -> u32 {
+    let mut c = t & 0x00FF_FFFF;
+    for _ in 0..24 {
+        if c & 1 != 0 {
+            c = ((c ^ 0x0086_4CFB) >> 1) | 0x0080_0000;
+        } else {
+            c >>= 1;
+        }
+    }
+    c
+}
+
+/// Foreign framer variant: a valid frame whose checksum equals `target`, obtained
+/// by choosing the last three payload bytes (payload must have >= 3 bytes).
+pub fn make_frame_with_crc(reserved: u8, payload: &[u8], target: u32) -> Option<Vec<u8>> {
+    let l = payload.len();
+    if l < 3 || l > 1023 {
+        return None;
+    }
+    let mut v = Vec::with_capacity(l + 6);
+    v.push(0xD3);
+    v.push(((reserved & 0x3F) << 2) | ((l >> 8) as u8 & 0x03));
+    v.push((l & 0xFF) as u8);
+    v.extend_from_slice(&payload[..l - 3]);
+    let c = crc24q(&v);
+    let x = c ^ crc24q_unshift24(target & 0x00FF_FFFF);
+    v.push((x >> 16) as u8);
+    v.push((x >> 8) as u8);
+    v.push(x as u8);
+    let got = crc24q(&v);
+    if got != target & 0x00FF_FFFF {
+        return None; // crafting failed: caller falls back to an ordinary frame
+    }
+    v.push((got >> 16) as u8);
+    v.push((got >> 8) as u8);
+    v.push(got as u8);
+    Some(v)
+}
+
 /// Start-up self-test of the trusted base. Returns the number of vectors
 /// checked or an error text (→ harness error, exit 2).
 pub fn self_test(repo: &str) -> Result<usize, String> {
@@ -166,6 +208,12 @@ pub fn self_test(repo: &str) -> Result<usize, String> {
     }
     if crc24q(b"123456789") != 0xCDE703 {
         return Err("table crc check value mismatch".into());
+    }
+    for t in [0u32, 0xFF_FFFF, 0xD3_0000, 0x12_3456] {
+        match make_frame_with_crc(0, &[1, 2, 3, 4, 5, 6, 7], t) {
+            Some(f) if ref_accept(&f) == Accept::Accept(7) && crc24q_bitwise(&f[..10]) == t => {}
+            _ => return Err(format!("crafting a frame with checksum {:06X} failed", t)),
+        }
     }
     // table vs bitwise on a deterministic pseudo-random corpus
     let mut x: u64 = 0x1234_5678_9ABC_DEF0;
